@@ -135,16 +135,42 @@ func (c *Check) MergeDischarged(other *Check, how string) {
 		oth[key(o)] = o
 		ocnt[key(o)]++
 	}
-	for i, o := range c.Obls {
-		if o.Status == Discharged || cnt[key(o)] != 1 || ocnt[key(o)] != 1 {
+	var out []*Obligation
+	for _, o := range c.Obls {
+		if o.Status == Discharged || cnt[key(o)] != 1 {
+			out = append(out, o)
 			continue
 		}
-		if o2 := oth[key(o)]; o2 != nil && o2.Status == Discharged {
+		if o2 := oth[key(o)]; o2 != nil && ocnt[key(o)] == 1 && o2.Status == Discharged {
 			n := *o2
 			n.Detail = n.Detail + " (" + how + ")"
-			c.Obls[i] = &n
+			out = append(out, &n)
+			continue
 		}
+		// a gate that could not even be evaluated in the first pass ("sink not found") is recorded under the bare
+		// construct; in the other pass its requirements are recorded as "<construct> requires <name>": all of them
+		// discharged there = the gate is discharged
+		var parts []*Obligation
+		allOK := true
+		for _, o2 := range other.Obls {
+			if o2.Rule == o.Rule && strings.HasPrefix(o2.Construct, o.Construct+" requires ") {
+				parts = append(parts, o2)
+				if o2.Status != Discharged {
+					allOK = false
+				}
+			}
+		}
+		if o.Status == Undecided && len(parts) > 0 && allOK {
+			for _, o2 := range parts {
+				n := *o2
+				n.Detail = n.Detail + " (" + how + ")"
+				out = append(out, &n)
+			}
+			continue
+		}
+		out = append(out, o)
 	}
+	c.Obls = out
 	for f := range other.funcs {
 		c.funcs[f] = true
 	}
